@@ -47,7 +47,7 @@ func lexRunTwo(h string) string {
 	for run, marker := range []token.Type{token.EOF, token.EOL} {
 		var l *lexer.Lexer
 		if run == 0 {
-			l = lexer.NewBytes([]byte(src))
+			l = lexer.NewBytes(exactBytes(src))
 		} else {
 			// "whatever was lexed before": between the two runs the process interns 20000 other tokens (the same ones in every
 			// case: the table of the unchanged code grows once).  Seeded change C16-6 emptied the table when it held 16384
